@@ -187,6 +187,27 @@ fn drop_race(cap: Option<usize>, n: usize) -> usize {
     acc
 }
 
+/// The last handle is dropped at the very moment the worker finishes its last entry (the wrapped sink signals the
+/// delivery from inside its emit): the stop request races with the worker's "anything left? then wait" decision. With
+/// weak-memory emulation either side may read a stale counter or flag - the wrapped sink must be released all the same.
+fn drop_after_delivery(cap: Option<usize>, n: usize) -> usize {
+    let sh = Arc::new(Shared { st: Mutex::new(Log::default()), cv: Condvar::new() });
+    let q = match cap {
+        Some(c) => QueuingMetricSink::with_capacity(RecSink { sh: sh.clone() }, c),
+        None => QueuingMetricSink::from(RecSink { sh: sh.clone() }),
+    };
+    let mut acc = 0;
+    for k in 0..n {
+        if q.emit(&format!("p0.n{}|ok", k)).is_ok() {
+            acc += 1;
+        }
+    }
+    wait_until(&sh, "delivery", |g| g.delivered.len() >= acc);
+    drop(q);
+    wait_until(&sh, "release", |g| g.sink_dropped);
+    acc
+}
+
 fn main() {
     let set = std::env::args().nth(1).unwrap_or_else(|| "a".into());
     let mut total = 0;
@@ -205,6 +226,10 @@ fn main() {
     }
     for (cap, n) in [(Some(1usize), 3usize), (Some(2), 2), (None, 4), (Some(0), 1)] {
         total += drop_race(cap, n);
+        runs += 1;
+    }
+    for k in 0..10usize {
+        total += drop_after_delivery(if k % 3 == 0 { Some(1 + k % 2) } else { None }, 1 + k % 2);
         runs += 1;
     }
     println!("miri_queue ok set={} scenarios={} metrics_delivered={} scripted_panics={}", set, runs, total, panics);
